@@ -54,6 +54,7 @@ const (
 	StProcMem  = "stat-ok-read-fails"         // /proc/self/mem: stat succeeds, read returns EIO
 	StLinkOK   = "symlink"                    // symlink to a regular file with Content
 	StLinkRel  = "relative-symlink-in-subdir" // sub/<name> -> "real.json" (relative target) next to sub/real.json with Content; a decoy real.json with another patch sits in the working directory
+	StDevFd    = "dev-fd-pipe"                // /dev/fd/N: an inherited pipe (shell process substitution `-p <(cmd)`), fed with Content
 	StFifo     = "fifo"                       // named pipe fed with Content by the harness (what `-p <(cmd)` gives): readable, not a regular file
 )
 
@@ -131,7 +132,7 @@ func fold(s *Scen) (e Expected) {
 		}
 		f := s.Files[a.File]
 		switch f.State {
-		case StFile, StLinkOK, StFifo, StLinkRel:
+		case StFile, StLinkOK, StFifo, StLinkRel, StDevFd:
 		default:
 			return Expected{Why: fmt.Sprintf("argument %d: file state %s", i, f.State)}
 		}
@@ -170,6 +171,13 @@ func Exec(s *Scen, binDir, dir string) (*Observed, error) {
 	defer os.RemoveAll(dir)
 	var fifos []string
 	var feeders sync.WaitGroup
+	var extra []*os.File // read ends of pipes the child inherits as fd 3, 4, ...
+	devfd := map[string]int{}
+	defer func() {
+		for _, f := range extra {
+			f.Close()
+		}
+	}()
 	for _, f := range s.Files {
 		p := filepath.Join(dir, f.Name)
 		switch f.State {
@@ -188,6 +196,18 @@ func Exec(s *Scen, binDir, dir string) (*Observed, error) {
 			os.Symlink(p+".real", p)
 		case StProcMem:
 			os.Symlink("/proc/self/mem", p)
+		case StDevFd:
+			r, w, err := os.Pipe()
+			if err != nil {
+				return nil, err
+			}
+			devfd[f.Name] = 3 + len(extra)
+			extra = append(extra, r)
+			content := f.Content
+			go func() {
+				w.Write(content) // patch texts are far below the pipe capacity
+				w.Close()
+			}()
 		case StLinkRel:
 			sub := filepath.Join(dir, "sub-"+f.Name)
 			os.MkdirAll(sub, 0o755)
@@ -233,6 +253,10 @@ func Exec(s *Scen, binDir, dir string) (*Observed, error) {
 		if s.Files[a.File].State == StLinkRel {
 			name = "sub-" + name + "/" + name
 		}
+		if s.Files[a.File].State == StDevFd {
+			name = fmt.Sprintf("/dev/fd/%d", devfd[name])
+			a.PathStyle = 0
+		}
 		switch a.PathStyle {
 		case 1:
 			name = "./" + name
@@ -261,6 +285,7 @@ func Exec(s *Scen, binDir, dir string) (*Observed, error) {
 		cmd = exec.CommandContext(ctx, "/bin/sh", append([]string{"-c", sh, bin}, argv...)...)
 	}
 	cmd.Dir = dir
+	cmd.ExtraFiles = extra
 	cmd.Env = []string{"PATH=/usr/bin:/bin", "HOME=" + dir}
 	var so, se bytes.Buffer
 	cmd.Stdout = &so
@@ -403,7 +428,7 @@ func describeArgs(s *Scen) string {
 	for _, a := range s.Args {
 		f := s.Files[a.File]
 		d := f.State
-		if f.State == StFile || f.State == StLinkOK || f.State == StFifo || f.State == StLinkRel {
+		if f.State == StFile || f.State == StLinkOK || f.State == StFifo || f.State == StLinkRel || f.State == StDevFd {
 			d += ":" + f.Note
 		}
 		parts = append(parts, fmt.Sprintf("%s[%s]", f.Name, d))
@@ -511,6 +536,20 @@ func Enumerate() []*Scen {
 		for style := 0; style < 4; style++ {
 			for sp := 0; sp < 4; sp++ {
 				out = append(out, &Scen{Target: target, Stdin: sim.Bytes(chainDoc), Note: "enumeration: path styles", Files: []File{{Name: "p.json", State: StFile, Content: sim.Bytes(chainPatch(0)), Note: "valid"}, {Name: "q.json", State: StLinkOK, Content: sim.Bytes(chainPatch(1)), Note: "valid"}}, Args: []Arg{{File: 0, Spelling: sp, PathStyle: style}, {File: 1, Spelling: (sp + 1) % 4, PathStyle: (style + 1) % 4}}})
+			}
+		}
+		for n := 1; n <= 3; n++ {
+			for pos := 0; pos < n; pos++ {
+				s := &Scen{Target: target, Stdin: sim.Bytes(chainDoc), Note: fmt.Sprintf("enumeration: inherited pipe /dev/fd/N at position %d of %d", pos, n)}
+				for i := 0; i < n; i++ {
+					st := StFile
+					if i == pos {
+						st = StDevFd
+					}
+					s.Files = append(s.Files, File{Name: fmt.Sprintf("p%d.json", i), State: st, Content: sim.Bytes(chainPatch(i)), Note: "valid"})
+					s.Args = append(s.Args, Arg{File: i, Spelling: (i + 1) % 4})
+				}
+				out = append(out, s)
 			}
 		}
 		out = append(out, &Scen{Target: target, Stdin: sim.Bytes(chainDoc), Note: "enumeration: malformed patch through a named pipe", Files: []File{{Name: "p.json", State: StFifo, Content: sim.Bytes(`[{"op":`), Note: "torn"}}, Args: []Arg{{File: 0}}})
@@ -695,6 +734,8 @@ func Gen(seed uint64) *Scen {
 				f.State = StFifo
 			} else if r.P(80) {
 				f.State = StLinkRel
+			} else if r.P(60) {
+				f.State = StDevFd
 			}
 		case x < 70:
 			f = faultFile(name, r.Intn(numFaultKinds), chainPatch(step))
@@ -740,7 +781,7 @@ func Gen(seed uint64) *Scen {
 	}
 	if len(s.Args) > 0 && r.P(120) {
 		// (a named pipe can be read once: never give it twice)
-		if a := s.Args[r.Intn(len(s.Args))]; s.Files[a.File].State != StFifo {
+		if a := s.Args[r.Intn(len(s.Args))]; s.Files[a.File].State != StFifo && s.Files[a.File].State != StDevFd {
 			s.Args = append(s.Args, a)
 		}
 	}
@@ -890,7 +931,7 @@ func RunWorker(p sim.Params) *sim.Summary {
 		for _, a := range s.Args {
 			f := s.Files[a.File]
 			k := "patch_file_" + f.State
-			if f.State == StFile || f.State == StLinkOK || f.State == StFifo || f.State == StLinkRel {
+			if f.State == StFile || f.State == StLinkOK || f.State == StFifo || f.State == StLinkRel || f.State == StDevFd {
 				k += ":" + f.Note
 			}
 			sum.Faults[k]++
@@ -967,7 +1008,7 @@ func RunWorker(p sim.Params) *sim.Summary {
 		sum.Enum["fault_and_order_enumeration"]++
 	}
 	if done {
-		sum.Exhaustive = []string{fmt.Sprintf("every fault kind (%d) x every position in -p lists of length 1..3 with all other patches valid, every permutation of three chained and of three overwriting patches, no/duplicate/symlinked arguments, 14 stdin variants (empty, other roots, torn, byte-order marks, trailing data), 255/256/257/512 patch arguments, a 1 MiB patch file at each of 3 positions, stdin redirected from a regular file (5 documents, with and without patches), six two-file lists whose second file refers to the whole document or replaces a null root, 100 patch files under an open-file limit of 32, stdin delivered in 1/2/n writes, a named pipe and a relative symlink in a sub-directory as patch file at every position, 4 path styles x 4 flag spellings - for both binaries (%d executions)", numFaultKinds, len(enum))}
+		sum.Exhaustive = []string{fmt.Sprintf("every fault kind (%d) x every position in -p lists of length 1..3 with all other patches valid, every permutation of three chained and of three overwriting patches, no/duplicate/symlinked arguments, 14 stdin variants (empty, other roots, torn, byte-order marks, trailing data), 255/256/257/512 patch arguments, a 1 MiB patch file at each of 3 positions, stdin redirected from a regular file (5 documents, with and without patches), six two-file lists whose second file refers to the whole document or replaces a null root, 100 patch files under an open-file limit of 32, stdin delivered in 1/2/n writes, a named pipe, an inherited pipe (/dev/fd/N) and a relative symlink in a sub-directory as patch file at every position, 4 path styles x 4 flag spellings - for both binaries (%d executions)", numFaultKinds, len(enum))}
 	}
 	// 2. seeded random scenarios
 	for i := int64(0); i < p.MaxRuns && time.Now().Before(p.Deadline); i++ {
